@@ -593,6 +593,8 @@ func TestVerifC10Conc(t *testing.T) {
 	out := verifutil.OpenOut()
 	defer out.Close()
 	rounds := verifutil.EnvInt("VERIF_N", 20)
+	out.Comment("oracle-only concurrent stress; nothing to compare with the model")
+	out.Emit("t.new", "ok")
 	for r := 0; r < rounds; r++ {
 		for _, lru := range []bool{false, true} {
 			verifConcRound(out, uint64(r), lru)
